@@ -134,6 +134,20 @@ CHECKS["C17"] = dict(
                       "the first year of each calendar type; wall-clock semantics for aware datetimes; prices multiples "
                       "of 1e-5 $, breakpoints on whole seconds.")
 
+CHECKS["C15"] = dict(
+    text="EventGen.tla specifies the conversion document/sample -> session (floor of the instant to the period index "
+         "minus the start index, max_len and force_feasible caps, arguments of the capacity function, battery "
+         "coverage); TLC proves FloorProperty, OrderPreserved, DepartureAfterArrival, both caps and Coverage on the "
+         "lattice. Every lattice case is converted by the real _convert_to_ev / _convert_ev_matrix / generate_events and "
+         "must equal the spec's session. For the two-stage capacity fit, TLC judges every (cap, init) the real "
+         "batt_cap_fn returns against an exact fixed-point enclosure of the two-stage law, and a real "
+         "Linear2StageBattery charged at full rate for the stay must deliver the request.",
+    tech="TLA+ spec (EventGen.tla) + TLC invariants + spec-to-code case replay + code-to-spec validation of observed fits",
+    ref="5/C15", note="Trusted: TLC/SANY, Json/SequencesExt, numpy, pytz (zone table cross-checked on every use). "
+                      "Whole-second aware instants 1970-2038 at or after the start; valid sample rows; stochastic max_len "
+                      "in hours (pinned by the repo tests); fit at 32 A, transition SoC 0.8; boundary-exact float cases "
+                      "are skipped as non-decisive.")
+
 NOT_APPLICABLE = []
 
 
